@@ -17,7 +17,7 @@ import (
 // directory is taken through the OS (what a kill -9 leaves) and a second server is started on the
 // image; between program segments the server itself is stopped and restarted on the directory.
 
-var diskNames = []string{tname(parentA, "t1"), tname(parentA, "t2"), tname(parentB, "t1")}
+var diskNames = []string{tname(parentA, "t1"), tname(parentA, "t2"), tname(parentB, "t1"), tname(parentA, "t10")}
 
 func copyTree(src, dst string) error {
 	return filepath.Walk(src, func(p string, info os.FileInfo, err error) error {
@@ -299,6 +299,14 @@ func genC08(out, tier string, rng *rand.Rand) {
 	tags = append(tags, "delete-table")
 	programs = append(programs, plain([][]Call{{create, w("a", "1"), {Req: Req{Kind: "delete", Table: t1}, Now: 1}, create, w("b", "2")}, {w("c", "3")}}))
 	tags = append(tags, "delete-recreate")
+	// tables whose ids are prefixes of one another: deleting / clearing / re-creating one leaves the other
+	t10 := tname(parentA, "t10")
+	create10 := Call{Req: Req{Kind: "create", Parent: parentA, Tid: "t10", Fams: []FamDef{{Name: "cf"}}}, Now: 1000}
+	w10 := func(key, v string) Call {
+		return Call{Req: Req{Kind: "mutate", Table: t10, Key: []byte(key), Muts: []Mutation{{Kind: "set", Fam: "cf", Q: []byte("q"), Ts: 1000, V: []byte(v)}}}, Now: 5000}
+	}
+	programs = append(programs, plain([][]Call{{create, create10, w("a", "1"), w10("x", "10"), {Req: Req{Kind: "delete", Table: t1}, Now: 1}}, {w10("y", "11"), create, w("b", "2"), {Req: Req{Kind: "drop", Table: t1, All: true}, Now: 1}}, {w10("z", "12"), {Req: Req{Kind: "delete", Table: t10}, Now: 1}}, {w("c", "3")}}))
+	tags = append(tags, "prefix-related-ids")
 	// kill INSIDE a request, restart on that image and carry on (twice in a row: the second kill hits a
 	// server that itself started on a crash image)
 	del := Call{Req: Req{Kind: "delete", Table: t1}, Now: 1}
